@@ -28,6 +28,8 @@ def outcome(req):
             except Exception as e:  # noqa: BLE001
                 r = ("exc", e)
     else:
+        if req.get("chdir"):
+            os.chdir(req["chdir"])
         r = core.impl_loads(req["text"], reset=False)
     if r[0] == "ok":
         with core.quiet():
